@@ -57,7 +57,7 @@ func lsScenario(seed uint64, rig string, hs []interface{}) *scn.Scenario {
 		Config: scn.Config{K: "00000000000000000000000000000000", OPC: "00000000000000000000000000000000", MCC: "001", MNC: "01", IMSI: "001010000000001"}}
 }
 
-var ulKinds = []string{"regcomplete", "smc", "authresp", "dereg", "est", "relreq", "svc"}
+var ulKinds = []string{"regcomplete", "smc", "authresp", "dereg", "est", "relreq", "svc", "gsm-est", "gsm-rel", "gsm-mod"}
 var dlKinds = []string{"authreq", "smc", "regaccept", "cuc", "svcaccept", "deregaccept", "dlnas"}
 
 func genMsg(r *kernel.Rand, kinds []string) map[string]interface{} {
@@ -92,7 +92,7 @@ func genULHistory(r *kernel.Rand, maxOps int) map[string]interface{} {
 		case x == 2:
 			ops = append(ops, map[string]interface{}{"op": "rekey", "kenc": hex.EncodeToString(r.Bytes(16)), "kint": hex.EncodeToString(r.Bytes(16))})
 		case x == 3:
-			ops = append(ops, map[string]interface{}{"op": "bad", "sht": r.Pick(1, 2, 3, 4), "which": r.Intn(5)})
+			ops = append(ops, map[string]interface{}{"op": []string{"bad", "bad-direct"}[r.Intn(2)], "sht": r.Pick(1, 2, 3, 4), "which": r.Intn(15)})
 		default:
 			ops = append(ops, map[string]interface{}{"op": "send", "sht": r.Pick(1, 2, 2, 2, 3, 4), "msg": genMsg(r, ulKinds)})
 		}
@@ -327,6 +327,8 @@ func genAKAHistory(r *kernel.Rand, maxOps int) map[string]interface{} {
 			op = map[string]interface{}{"op": "replay", "idx": r.Intn(64), "auts_off": r.Intn(14), "auts_bit": r.Intn(8)}
 		case x == 4:
 			op["drop"] = true
+		case x == 7 && r.Sub("badkey").Chance(1, 2):
+			op = map[string]interface{}{"op": "badkey", "short": r.Intn(2), "rand": hex.EncodeToString(r.Bytes(16))}
 		case x == 5: // corrupt the MAC part specifically, first octet included
 			op["fault"], op["off"], op["bit"] = "flip-autn", 8+r.Intn(8), r.Intn(8)
 		case x == 6: // corrupt the concealed SQN, first octet included
@@ -334,6 +336,11 @@ func genAKAHistory(r *kernel.Rand, maxOps int) map[string]interface{} {
 		}
 		if i == 0 && lastAKARand != "" && r.Sub("samerand").Chance(1, 3) && op["op"] == "challenge" {
 			op["rand"] = lastAKARand // the previous subscriber's last RAND again
+		}
+		if op["op"] == "challenge" || op["op"] == "replay" {
+			if r.Sub(fmt.Sprint("il", i)).Chance(1, 2) {
+				op["interleave"], op["k2"], op["opc2"], op["rand2"] = true, hex.EncodeToString(r.Sub("k2").Bytes(16)), hex.EncodeToString(r.Sub("o2").Bytes(16)), hex.EncodeToString(r.Sub(fmt.Sprint("r2", i)).Bytes(16))
+			}
 		}
 		ops = append(ops, op)
 	}
